@@ -35,6 +35,7 @@ type Obligation struct {
 	Solver string
 	Time   float64
 	Model  string
+	Inherited       bool // counted for the property because a function under it relied on this function's contract
 	replayConfirmed bool
 	replayNote      string
 }
@@ -89,6 +90,7 @@ type Translator struct {
 	reachConsts    map[string]bool
 	autoRecvNonNil bool
 	safeOnly       bool
+	usedContracts  map[string]bool // in-package functions whose contracts this verification relied on (modular calls, laws)
 }
 
 type closureInfo struct {
@@ -258,6 +260,11 @@ func (tr *Translator) havocComp(c string) string {
 	}
 	if strings.HasPrefix(c, "ML_") {
 		tr.fact(fmt.Sprintf("(forall ((a Int)) (! (>= (select %s a) 0) :pattern ((select %s a))))", n, n))
+	}
+	if strings.HasPrefix(c, "MV_") {
+		if f := tr.u.mapValWF(c, n); f != "" {
+			tr.factFor(n, f)
+		}
 	}
 	return n
 }
@@ -805,8 +812,12 @@ func (tr *Translator) havocAll() {
 			}
 		}
 		if !passed {
-			paramHolders = append(paramHolders, holder{ph.addr, ph.t})
-			protPtr = append(protPtr, and(not(eq(ph.addr, "0")), eq("(obase a)", "(obase "+ph.addr+")")))
+			if ph.t != nil {
+				paramHolders = append(paramHolders, holder{ph.addr, ph.t})
+			}
+			// the object itself keeps all its cells: the callee was not handed a pointer to it, and model values are
+			// trees (nothing the callee can reach points back into it)
+			prot = append(prot, and(not(eq(ph.addr, "0")), eq("(obase a)", "(obase "+ph.addr+")")))
 		}
 	}
 	// TREE assumption: the holder objects a local value points to (SchemaOrBool, SchemaOrArray, ...) keep their
@@ -841,6 +852,9 @@ func (tr *Translator) havocAll() {
 			hb := tr.define("hpb", "Int", "(obase "+p+")")
 			protPtr = append(protPtr, and(not(eq(p, "0")), eq("(obase a)", hb)))
 		}
+	}
+	if len(tr.paramHolders) > 0 {
+		tr.trusted["TREE: an object designated by a pointer (or pointer-holding interface) parameter of the function under verification is not written by a callee that was not handed that pointer"] = true
 	}
 	if len(protPtr) > 0 {
 		tr.trusted["TREE: pointer fields of holder objects referenced by a local value are not changed by callees that received only sub-values (model values are trees)"] = true
